@@ -82,6 +82,7 @@ GateEvents ==
     \cup {In(r) : r \in GateBase}
     \cup {In(d) : d \in UNION {Defects(r) : r \in GateBase}}
     \cup {In(d) : d \in Defects(R("A", 0))}
+    \cup {In(d) : d \in Defects([R("A", 0) EXCEPT !.rsf = "Y"])}
     \cup {In([PossDup(R("D", -1)) EXCEPT !.ost = o]) : o \in {"none", "bad", "after"}}
     \cup {In([R("D", -1) EXCEPT !.pd = p]) : p \in {"N", "bad"}}
     \cup {In(R("D", 2))}
@@ -99,6 +100,7 @@ LifeEvents ==
     \cup {In([PossDup(R("4", rs)) EXCEPT !.gf = "Y", !.rn = rn]) : rs \in {-1, 0}, rn \in {-1, 0, 2}}
     \cup {Pre(R("D", 0)), Pre(R("5", 0)), Pre(R("0", 0)), Pre([R("1", 0) EXCEPT !.trid = "T1"])}
     \cup (IF CfgSchedule THEN {Tick("same"), Tick("out"), Tick("next")} ELSE {})     \* the session schedule's ticker
+    \cup (IF CfgResetSeqTime THEN {K("ResetTick")} ELSE {})
 
 \* ---- family "reset": C07 (a slice of "life" without buffered frames and application sends)
 ResetEvents ==
@@ -107,6 +109,9 @@ ResetEvents ==
     \cup (IF CfgSchedule THEN {Tick("same"), Tick("out"), Tick("next")} ELSE {})
     \cup {In([R("A", rs) EXCEPT !.rsf = f]) : rs \in {-1, 0}, f \in {"none", "Y", "N"}} \cup {In(R("A", 1))}
     \cup {In([R("A", 0) EXCEPT !.cid = "wrong"])}
+    \cup {In([R("A", rs) EXCEPT !.cid = "wrong", !.rsf = "Y"]) : rs \in {-1, 0}}             \* refused Logons asking for a reset
+    \cup {In([R("A", rs) EXCEPT !.app = "rejlogon", !.rsf = f]) : rs \in {-1, 0}, f \in {"none", "Y"}}
+    \cup {In([R("A", 0) EXCEPT !.st = "stale", !.rsf = "Y"])}
     \cup {In(R("5", rs)) : rs \in {-1, 0, 1}}
     \cup {In(R("D", 0)), In(R("0", 0))}
     \cup {In([R("4", rs) EXCEPT !.rn = rn]) : rs \in {-2, 0, 2}, rn \in {-1, 0, 1, 2}}
@@ -140,6 +145,7 @@ KeepEvents ==
 \* ---- family "resend": C03 (replay)
 ResendEvents ==
     {K("Connect"), LogonOK, K("Flush"), T("NeedHeartbeat"), K("Disconnected")}
+    \cup (IF CfgResetSeqTime THEN {K("ResetTick")} ELSE {})
     \cup {Snd("b1", FALSE, FALSE), Snd("b2", FALSE, TRUE)}
     \cup {In([R("1", 0) EXCEPT !.trid = "T1"])}
     \cup {In([R("2", rs) EXCEPT !.b = b, !.e = e]) : rs \in {0, 1}, b \in 1..(MaxOut + 1), e \in (0..(MaxOut + 1)) \cup {999999}}
